@@ -1,7 +1,7 @@
 #!/bin/bash
 # Regression of the machinery against every kept seed: for each /verif/seeded/<id> apply the patch in a scratch worktree
 # of /repo's HEAD, run the checks listed in meta.json (detected_by) in the quick tier, expect exit 1.  Never touches /repo.
-WT=/tmp/wt/allseeds
+WT=/tmp/wt/allseeds$SHARD   # SHARD=<suffix> with ONLY=<ids> lets several shards run side by side
 git -C /repo worktree remove --force $WT 2>/dev/null
 git -C /repo worktree add -q --detach $WT HEAD || exit 2
 ok=0; bad=0
@@ -12,7 +12,7 @@ for d in /verif/seeded/*/; do
   [ -n "$ONLY" ] && [[ ! " $ONLY " =~ " ${id%%-*} " ]] && continue
   (cd $WT && git checkout -q -- teaal && git apply $d/patch.diff) || { echo "$id: PATCH DOES NOT APPLY"; bad=$((bad+1)); continue; }
   for c in $checks; do
-    MC_REPO=$WT timeout 1500 /verif/check $c > /tmp/wt/seedrun.log 2>&1; rc=$?
+    MC_REPO=$WT timeout 1500 /verif/check $c > /tmp/wt/seedrun$SHARD.log 2>&1; rc=$?
     if [ $rc -eq 1 ]; then ok=$((ok+1)); echo "$id: $c detects it"; else bad=$((bad+1)); echo "$id: $c exit $rc  *** NOT DETECTED ***"; fi
   done
   (cd $WT && git checkout -q -- teaal)
